@@ -141,6 +141,15 @@ def run(tier: str, seed: int) -> int:
         model_sigs = []
         kfiles = {}
         pool = cf.ThreadPoolExecutor(max_workers=20)
+        # (the transition graph of the user phase does not depend on what the diagnosis excuses: start it now)
+        measured = [g['name'] for g in groups if not g.get('stub')]
+        edges_job = None
+        if measured:
+            kref = work.path('ref_edges.json')
+            Kr = json.loads(work.path(measured[0] + '.json').read_text())
+            Kr['excusedLumps'], Kr['excusedViews'] = [], []
+            kref.write_text(json.dumps(Kr))
+            edges_job = pool.submit(run_tlc, 'BspLazy', 'BspLazy_edges.cfg', workers=1, env={'BSPLAZY_CONST': kref}, timeout=900)
         real_groups = [g for g in groups if not g.get('stub')]
         for g in groups:
             if g.get('stub'):       # the code could not be measured on these files: nothing to model, the scenarios report it
@@ -167,20 +176,25 @@ def run(tier: str, seed: int) -> int:
             for cfg in cfgs:
                 mc_jobs.append((cfg, g['name'], pool.submit(run_tlc, 'BspLazy', cfg, env={'BSPLAZY_CONST': kfiles[g['name']]},
                                                             workers=8, timeout=2400)))
-        if ref is None:     # not a single file could be measured: the static relations give the access sequences
-            ref = groups[0]['name']
-        r = run_tlc('BspLazy', 'BspLazy_edges.cfg', workers=1, env={'BSPLAZY_CONST': kfiles[ref]}, timeout=900)
-        core.require_mc(r, 'BspLazy_edges.cfg')
-        edges = [p for p in r.prints if isinstance(p, dict) and p.get('tag') == 'EDGE']
-        if len(edges) != r.generated - 1 or not edges:
-            raise core.MachineryError(f'BspLazy_edges.cfg: {len(edges)} edges printed for {r.generated} generated states')
+        if edges_job is not None:
+            r = edges_job.result()
+            core.require_mc(r, 'BspLazy_edges.cfg')
+            edges = [p for p in r.prints if isinstance(p, dict) and p.get('tag') == 'EDGE']
+            if len(edges) != r.generated - 1 or not edges:
+                raise core.MachineryError(f'BspLazy_edges.cfg: {len(edges)} edges printed for {r.generated} generated states')
+            cov['model_cache_states'] = r.distinct
+            cov['states'] += r.distinct
+            cov['transitions'] += r.generated
+            accessed = {e['a']['v'] for e in edges}
+            if len(accessed) != 21:
+                raise core.MachineryError(f'vacuous model: views never accessed: {accessed}')
+        else:
+            # the code under test could not read/save a single file: there are no relations to build a model from;
+            # every view is requested once and every scenario reports the failure
+            views = json.loads(work.path(groups[0]['name'] + '.json').read_text())['views']
+            edges = [{'tag': 'EDGE', 's': [], 'a': {'op': 'access', 'v': v}, 't': [v]} for v in views]
+            cov['edges_fallback'] = True
         cov['model_edges'] = len(edges)
-        cov['model_cache_states'] = r.distinct
-        cov['states'] += r.distinct
-        cov['transitions'] += r.generated
-        accessed = {e['a']['v'] for e in edges}
-        if len(accessed) != 21 and not groups[0].get('stub'):
-            raise core.MachineryError(f'vacuous model: views never accessed: {accessed}')
         ef = work.path('edges.json')
         ef.write_text(json.dumps(edges))
         mark('edges')
@@ -218,7 +232,7 @@ def run(tier: str, seed: int) -> int:
             samples.append({'file': mid['file'], 'acc': mid['acc'], 'cacheAfterAccess': mid['cacheAfterAccess'],
                             'pops': [e[1] for e in mid['ev'] if e[0] == 'pop'], 'changed': mid['changed'],
                             'viewDiff': mid['viewDiff'][:4]})
-        for need in ('none', 'single', 'pair', 'state', 'walk'):
+        for need in ('none', 'single') if cov.get('edges_fallback') else ('none', 'single', 'pair', 'state', 'walk'):
             if not srcs.get(need):
                 raise core.MachineryError(f'no scenario of kind {need} was executed')
         vjobs = []
